@@ -70,6 +70,12 @@ def run(tier):
     ck = Check('C03', tier)
     items = universe(tier)
     mism = conformance(ck, items, classify=classify, also_generated=True)
+    from ..pegcheck import trace_validate
+    from ..absgrammar import chars_of, make_cfg, to_ebnf
+    step = 5 if tier == 'quick' else 1
+    tcases = [{'ebnf': to_ebnf(it['g']), 'g': it['g'], 'cfg': make_cfg(chars_of(it['g'], it['texts']), **(it.get('cfg') or {})),
+               'texts': [''.join(t) for t in it['texts'] if len(t) <= 4][:30], 'settings': it.get('settings')} for it in items[ck.seed % step::step]]
+    trace_validate(ck, tcases, label='C03 left recursion')
     ck.cov['rule'] = (f'{len(items)} grammars = 12 families (direct, aliased, aliased entered through the alias, mutual, '
                       'optional-prefixed, named, direct plus mutual, right-recursive mix, two precedence levels, unary prefix, right-recursive power) x all 24 '
                       'assignments of rule names from {a,e,t,x} x all strings over the operator/operand alphabet up to length '
